@@ -43,14 +43,15 @@ def run(tier, seed):
     chk = Check('C05', tier, seed, 'model_checking')
     rng = random.Random(seed * 7919 + 5)
     quick = tier != 'thorough'
-    n = 36 if quick else 400
+    n = 36 if quick else 160
     vs = variants(quick, rng)
     base_items, asts = c01.gen_items(rng, n, c01.FEATURES | {'yield', 'end'}, levels=('-O0',))
     items = []
     for name, src, args in base_items:
         extra = [a for a in args if a != '-O0']
         items.append((name + '|O0', src, ['-O0'] + extra))
-        chosen = vs if not quick else [vs[i] for i in sorted(rng.sample(range(len(vs)), 3))]
+        # thorough: the first 16 programs under every variant (all 32 flag subsets + thresholds), the others under 6 sampled ones
+        chosen = [vs[i] for i in sorted(rng.sample(range(len(vs)), 3))] if quick else (vs if len(items) < 16 * (len(vs) + 1) else [vs[i] for i in sorted(rng.sample(range(len(vs)), 6))])
         for v in chosen:
             items.append((name + '|' + ' '.join(v), src, v + extra))
     for name, src, args in runner.corpus_programs(('ok',) if quick else ('example', 'ok')):
@@ -75,7 +76,7 @@ def run(tier, seed):
                                'a': base.res.get('msg'), 'b': q.res.get('msg')})
             elif base.ok:
                 pairs.append((base, q))
-    reports, st, cases = equiv.explore(pairs, slack=True, maxlen=9 if quick else 14, budget=60000 if quick else 1000000, timeout=1600 if quick else 9000)
+    reports, st, cases = equiv.explore(pairs, slack=True, maxlen=9 if quick else 12, budget=60000 if quick else 300000, timeout=1600 if quick else 9000)
     for e in st['errors']:
         chk.machinery_error('TLC(Equiv): ' + str(e)[:1500])
     kinds = collections.Counter()
@@ -113,11 +114,11 @@ def run(tier, seed):
             sel.append(b)
             if len(sel) % 4 == 1:
                 sel.append(a)
-        if len(sel) >= (14 if quick else 120):
+        if len(sel) >= (14 if quick else 80):
             break
     # byte-set family under the code-generation side of the optimisation flags (range collapsing at several thresholds)
     rsel = []
-    for i in range(8 if quick else 60):
+    for i in range(8 if quick else 40):
         sd = rng.randrange(1 << 30)
         rsrc = genprog.gen_range_program(sd)[1]
         for v in ([['-O2'], ['-O0', '-fcollapse-transition-ranges', '--collapsed-range-length', str(rng.choice([1, 2, 3]))]] if i % 2 else [['-O3', '--collapsed-range-length', '2'], ['-O0']]):
